@@ -20,7 +20,7 @@ var c12Bounds = func() []string {
 
 var c12Steps = []string{"", "1", "-1", "2", "-2", "3", "-3", "7", "-7", "8", "-8", "9223372036854775807", "-9223372036854775808", "-9223372036854775807", "4611686018427387904", "0", "-0"}
 
-var c12Chars = []string{"a", "é", "𝌆", "b", "✓", "c", "ü"}
+var c12Chars = []string{"a", "é", "𝌆", "\ufffd", "✓", "c", "ü"}
 
 func c12LatticeN(c *Ctx) int { return 8 * len(c12Bounds) * len(c12Bounds) * len(c12Steps) }
 
